@@ -44,10 +44,10 @@ MODEL_SCOPE = {
 
 PROFILES = {
     # property: [(profile, quick n, thorough n)]
-    "C01": [("base", 700, 12000), ("faults", 300, 6000), ("long", 25, 400)],
-    "C04": [("base", 900, 16000), ("faults", 200, 4000), ("long", 60, 800)],
+    "C01": [("base", 700, 12000), ("faults", 300, 6000), ("long", 25, 400), ("burst", 12, 200)],
+    "C04": [("base", 900, 16000), ("faults", 200, 4000), ("long", 60, 800), ("lazy", 12, 200)],
     "C05": [("base", 700, 12000), ("faults", 200, 4000), ("handshake", 150, 2000)],
-    "C08": [("faults", 900, 16000), ("base", 200, 3000)],
+    "C08": [("faults", 900, 16000), ("base", 200, 3000), ("lazy", 12, 200)],
     "C17": [("art", 250, 5000)],
     "C18": [("handshake", 1500, 30000)],
 }
@@ -184,7 +184,7 @@ def _run(prop, tier, replay, seed, work, t0):
     if not replay and C.HOOKS_ON and prop in ("C01", "C04", "C05", "C08"):
         def plain(sc):
             cfg = sc.get("cfg", {})
-            if any(k in cfg for k in ("max_read", "max_write", "pic", "password", "greeting")):
+            if any(k in cfg for k in ("max_read", "max_write", "pic", "password", "greeting", "lazy_events")) or cfg.get("callers", 1) > 3:
                 return False
             return not any(st.get("kind") in ("art", "tlist", "tvec") or st.get("op") in ("wstall", "drop_events") for b in sc.get("batches", []) for st in b)
         keep = {sc["run"] for sc in scheds if plain(sc)}
